@@ -308,6 +308,7 @@ def compareEvs (exp obs : List Spec.Ev) : List String :=
         let kind :=
           match e, o with
           | .ret "!no", .run .. => "visibility"       -- a refused call ran
+          | .ret "0", .run .. => "visibility"
           | .run .., .ret "!no" => "call-lost"        -- an allowed call did not run
           | .run .., .ret "swept" => "call-lost"
           | .vars .., .vars .. => "variables"
@@ -366,7 +367,11 @@ def runJudge (body : List String) : List String :=
   let p := parseCase input
   let d := parseDump impl
   let crashes := impl.filter (fun l => l.startsWith "crash" || l.startsWith "sanitizer" || l.startsWith "badcmd")
+  -- a case whose graph names a program it does not define is not a case (the shrinker must not produce one)
+  let dangling := p.graph.foldl (fun acc P =>
+    acc ++ (P.inherits.filter (fun i => p.graph.all (·.name != i.parent))).map (fun i => s!"{P.name} inherits undefined {i.parent}")) []
   if !p.bad.isEmpty then p.bad.map (fun l => s!"bad malformed-case {l}")
+  else if !dangling.isEmpty then dangling.map (fun l => s!"bad malformed-case {l}")
   else if !crashes.isEmpty then crashes.map (fun l => s!"bad crash {l}")
   else if !d.failed.isEmpty then d.failed.map (fun o => s!"bad load-failed {o}")
   else
